@@ -8,6 +8,7 @@ from typing import Any
 # property id -> profile module name
 PROPERTY_PROFILE = {
     "C19": "race",
+    "C03": "ctx",
 }
 
 
